@@ -17,7 +17,7 @@ def job_history(rng, nops, style):
     ops = []
     jid = [1]
 
-    def sub(check=None, kind=None):
+    def sub(check=None, kind=None, late=False):
         if check is None:
             check = 1 if rng.chance(3, 4) else 0
         if kind is None:
@@ -29,8 +29,16 @@ def job_history(rng, nops, style):
             else:
                 kind = rng.choice(IMMEDIATE)
         ln = rng.choice([16, 32, 48, 64, 128, 256, 512])
-        ops.append("S %d %d %d %d" % (check, kind, jid[0], ln))
+        ops.append("%s %d %d %d %d" % ("SN" if late else "S", check, kind, jid[0], ln))
         jid[0] += 1
+
+    def late_submit():
+        # the slot is taken with GET_NEXT_JOB, other calls follow (often until the queue is drained), then the slot
+        # is filled and submitted without another GET_NEXT_JOB
+        ops.append("N")
+        for _ in range(rng.choice([0, 1, 2, 5, 40, 300])):
+            ops.append(rng.choice(["F", "F", "F", "C", "Q"]))
+        sub(late=True)
 
     if style == "full":
         # one parked job at the head blocks returns; immediate jobs pile up behind it
@@ -93,8 +101,10 @@ def job_history(rng, nops, style):
         if style == "drain" and rng.chance(1, 3):
             ops.append("F")
             continue
-        if r < 50:
+        if r < 46:
             sub()
+        elif r < 50:
+            late_submit()
         elif r < 65:
             ops.append("F")
         elif r < 80:
@@ -230,7 +240,7 @@ def mixed_history(rng, nops):
     jid = 1
     for o in ops:
         t = o.split()
-        if t[0] == "S":
+        if t[0] in ("S", "SN"):
             t[3] = str(jid)
             jid += 1
         elif t[0] == "SB":
